@@ -1,1 +1,346 @@
 // Kani contract harnesses for /repo/arrow-buffer/src/buffer/offset.rs (child module: sees private items via super::)
+//
+// C09/C01: an `OffsetBuffer` that a *checked* constructor hands out always satisfies the Arrow
+// format rule for offsets buffers: non-empty, first offset >= 0, monotonically non-decreasing.
+// `wf_offsets` below is that rule written independently (plain loop over the input array).
+use super::*;
+
+/// Arrow columnar format, variable-size layouts: offsets buffer has length+1 entries, starts at a
+/// non-negative value and never decreases.
+fn wf_offsets<O: ArrowNativeType>(v: &[O]) -> bool {
+    if v.is_empty() {
+        return false;
+    }
+    if v[0] < O::usize_as(0) {
+        return false;
+    }
+    let mut i = 0;
+    while i + 1 < v.len() {
+        if v[i] > v[i + 1] {
+            return false;
+        }
+        i += 1;
+    }
+    true
+}
+
+// Contract (C09): `OffsetBuffer::new` on an arbitrary ScalarBuffer of n arbitrary values, n chosen
+// nondeterministically among the concrete sizes 0..=4 (grid rule: n sizes an allocation):
+//   *_accept_implies_wf (may-reject): IF it returns THEN wf_offsets(input) and the result exposes
+//       exactly the input values (len, every element).
+//   *_wf_implies_accept (not may-reject): IF wf_offsets(input) THEN it does not panic (no
+//       over-rejection) and exposes exactly the input.
+fn offset_new_case<O: ArrowNativeType + kani::Arbitrary, const N: usize, const ASSUME_WF: bool>() -> (bool, bool) {
+    let v: [O; N] = kani::any();
+    if ASSUME_WF {
+        kani::assume(wf_offsets(&v));
+    }
+    let ob = OffsetBuffer::new(ScalarBuffer::<O>::from(v.to_vec()));
+    assert!(wf_offsets(&v));
+    assert!(ob.len() == N && ob.inner().len() == N);
+    let i: usize = kani::any();
+    kani::assume(i < N);
+    assert!(ob[i] == v[i]);
+    // (accepted a strictly growing input, accepted a constant input)
+    (N > 1 && v[0] < v[N - 1], N > 1 && v[0] == v[N - 1])
+}
+fn offset_new_upto<O: ArrowNativeType + kani::Arbitrary, const ASSUME_WF: bool, const WITH4: bool>() {
+    let n: u8 = kani::any();
+    let (grow, flat) = match n {
+        0 => offset_new_case::<O, 0, ASSUME_WF>(),
+        1 => offset_new_case::<O, 1, ASSUME_WF>(),
+        2 => offset_new_case::<O, 2, ASSUME_WF>(),
+        3 => offset_new_case::<O, 3, ASSUME_WF>(),
+        _ => {
+            kani::assume(WITH4);
+            offset_new_case::<O, 4, ASSUME_WF>()
+        }
+    };
+    kani::cover!(n == 1);
+    kani::cover!(n == 3 && grow);
+    kani::cover!(n == 3 && flat);
+}
+// @unit name=offset_new_accept_implies_wf_i32 props=C09,C01 kind=bounded bound=n<=4_offsets fns=OffsetBuffer<i32>::new mayreject=1 tier=quick mem=3 timeout=300
+#[kani::proof]
+#[kani::unwind(8)]
+fn offset_new_accept_implies_wf_i32() {
+    offset_new_upto::<i32, false, true>()
+}
+// @unit name=offset_new_wf_implies_accept_i32 props=C09 kind=bounded bound=n<=4_offsets fns=OffsetBuffer<i32>::new tier=quick mem=3 timeout=300
+#[kani::proof]
+#[kani::unwind(8)]
+fn offset_new_wf_implies_accept_i32() {
+    offset_new_upto::<i32, true, true>()
+}
+// @unit name=offset_new_accept_implies_wf_i64 props=C09,C01 kind=bounded bound=n<=3_offsets fns=OffsetBuffer<i64>::new mayreject=1 tier=quick mem=3 timeout=300
+#[kani::proof]
+#[kani::unwind(8)]
+fn offset_new_accept_implies_wf_i64() {
+    offset_new_upto::<i64, false, false>()
+}
+// @unit name=offset_new_wf_implies_accept_i64 props=C09 kind=bounded bound=n<=3_offsets fns=OffsetBuffer<i64>::new tier=quick mem=3 timeout=300
+#[kani::proof]
+#[kani::unwind(8)]
+fn offset_new_wf_implies_accept_i64() {
+    offset_new_upto::<i64, true, false>()
+}
+// @unit name=offset_new_accept_implies_wf_i32_n6 props=C09,C01 kind=bounded bound=n=6_offsets fns=OffsetBuffer<i32>::new mayreject=1 tier=thorough mem=4 timeout=900
+#[kani::proof]
+#[kani::unwind(10)]
+fn offset_new_accept_implies_wf_i32_n6() {
+    let (grow, flat) = offset_new_case::<i32, 6, false>();
+    kani::cover!(grow);
+    kani::cover!(flat);
+}
+// @unit name=offset_new_wf_implies_accept_i32_n6 props=C09 kind=bounded bound=n=6_offsets fns=OffsetBuffer<i32>::new tier=thorough mem=4 timeout=900
+#[kani::proof]
+#[kani::unwind(10)]
+fn offset_new_wf_implies_accept_i32_n6() {
+    let (grow, flat) = offset_new_case::<i32, 6, true>();
+    kani::cover!(grow);
+    kani::cover!(flat);
+}
+
+// Contract (C09/C01): the unchecked-input-free constructors produce well-formed offsets:
+// `new_empty()` = [0]; `new_zeroed(L)` = L+1 zeros; `Default` = [0].
+fn offset_zeroed_point<const L: usize>() {
+    let z = OffsetBuffer::<i32>::new_zeroed(L);
+    assert!(z.len() == L + 1 && wf_offsets(&z));
+    let i: usize = kani::any();
+    kani::assume(i <= L);
+    assert!(z[i] == 0);
+    let z64 = OffsetBuffer::<i64>::new_zeroed(L);
+    assert!(z64.len() == L + 1 && z64[i] == 0);
+    let e = OffsetBuffer::<i64>::new_empty();
+    assert!(e.len() == 1 && e[0] == 0);
+    let d = OffsetBuffer::<i32>::default();
+    assert!(d.len() == 1 && d[0] == 0 && d.lengths().len() == 0);
+    kani::cover!(i == L);
+}
+// @unit name=offset_zeroed_0 props=C09,C01 kind=bounded bound=len_0 fns=OffsetBuffer::new_zeroed,OffsetBuffer::new_empty,OffsetBuffer::default tier=quick mem=2 timeout=120
+#[kani::proof]
+#[kani::unwind(8)]
+fn offset_zeroed_0() {
+    offset_zeroed_point::<0>()
+}
+// @unit name=offset_zeroed_3 props=C09,C01 kind=bounded bound=len_3 fns=OffsetBuffer::new_zeroed,OffsetBuffer::new_empty,OffsetBuffer::default tier=quick mem=2 timeout=120
+#[kani::proof]
+#[kani::unwind(8)]
+fn offset_zeroed_3() {
+    offset_zeroed_point::<3>()
+}
+// Contract (C09): `new_zeroed(len)` panics (instead of wrapping and allocating a short buffer) when
+// (len+1)*size_of::<O>() overflows usize: for such len it never returns.
+// @unit name=offset_zeroed_overflow_rejects props=C09 kind=complete fns=OffsetBuffer::new_zeroed mayreject=1 tier=quick mem=2 timeout=120
+#[kani::proof]
+#[kani::unwind(8)]
+fn offset_zeroed_overflow_rejects() {
+    let len: usize = kani::any();
+    kani::assume(len >= usize::MAX / 8); // (len+1)*8 overflows
+    let always = len == usize::MAX || (len + 1) as u128 * 8 > usize::MAX as u128;
+    kani::cover!(always);
+    let z = OffsetBuffer::<i64>::new_zeroed(len);
+    // reached only if it returned: then the byte size did not overflow and the allocator gave
+    // len+1 elements (impossible in practice, but the contract is about wrap-around)
+    assert!((len as u128 + 1) * 8 <= usize::MAX as u128);
+    assert!(z.len() as u128 == len as u128 + 1);
+}
+
+// Contract (C09/C01): `from_lengths` of K arbitrary usize lengths:
+//   may-reject: IF it returns THEN the total fits the offset type, offsets[0] = 0, offsets[i+1] =
+//       offsets[i] + lengths[i] exactly (no wrap-around, computed in u128), hence wf_offsets;
+//   accept: IF the total fits THEN it does not panic. `lengths()` inverts it.
+fn offset_from_lengths_case<O: ArrowNativeType + kani::Arbitrary, const K: usize, const ASSUME_FITS: bool>(max: u128) {
+    let l: [usize; K] = kani::any();
+    let mut total: u128 = 0;
+    for x in l.iter() {
+        total += *x as u128;
+    }
+    if ASSUME_FITS {
+        kani::assume(total <= max);
+    }
+    let ob = OffsetBuffer::<O>::from_lengths(l.iter().copied());
+    assert!(total <= max);
+    assert!(ob.len() == K + 1 && wf_offsets(&ob) && ob[0] == O::usize_as(0));
+    let i: usize = kani::any();
+    kani::assume(i < K);
+    let mut pre: u128 = 0;
+    for (j, x) in l.iter().enumerate() {
+        if j <= i {
+            pre += *x as u128;
+        }
+    }
+    assert!(ob[i + 1].as_usize() as u128 == pre);
+    // lengths() gives the input back
+    let mut it = ob.lengths();
+    assert!(it.len() == K);
+    let mut j = 0;
+    while let Some(x) = it.next() {
+        if j == i {
+            assert!(x == l[i]);
+        }
+        j += 1;
+    }
+    kani::cover!(total == max);
+    kani::cover!(total == 0);
+}
+// @unit name=offset_from_lengths_rejects_i32 props=C09,C01 kind=bounded bound=3_lengths fns=OffsetBuffer<i32>::from_lengths,OffsetBuffer::lengths mayreject=1 tier=quick mem=3 timeout=300
+#[kani::proof]
+#[kani::unwind(8)]
+fn offset_from_lengths_rejects_i32() {
+    offset_from_lengths_case::<i32, 3, false>(i32::MAX as u128)
+}
+// @unit name=offset_from_lengths_accepts_i32 props=C09 kind=bounded bound=3_lengths fns=OffsetBuffer<i32>::from_lengths,OffsetBuffer::lengths tier=quick mem=3 timeout=300
+#[kani::proof]
+#[kani::unwind(8)]
+fn offset_from_lengths_accepts_i32() {
+    offset_from_lengths_case::<i32, 3, true>(i32::MAX as u128)
+}
+// @unit name=offset_from_lengths_rejects_i64 props=C09,C01 kind=bounded bound=3_lengths fns=OffsetBuffer<i64>::from_lengths,OffsetBuffer::lengths mayreject=1 tier=quick mem=3 timeout=300
+#[kani::proof]
+#[kani::unwind(8)]
+fn offset_from_lengths_rejects_i64() {
+    offset_from_lengths_case::<i64, 3, false>(i64::MAX as u128)
+}
+// @unit name=offset_from_lengths_accepts_i64 props=C09 kind=bounded bound=3_lengths fns=OffsetBuffer<i64>::from_lengths,OffsetBuffer::lengths tier=quick mem=3 timeout=300
+#[kani::proof]
+#[kani::unwind(8)]
+fn offset_from_lengths_accepts_i64() {
+    offset_from_lengths_case::<i64, 3, true>(i64::MAX as u128)
+}
+
+// Contract (C09/C01): `from_repeated_length(length, N)` for arbitrary `length` and concrete N:
+// returns exactly [0, length, 2*length, ..., N*length] (monotone, starts at 0), and it panics
+// EXACTLY when N*length does not fit the offset type (or usize):
+//   may-reject: returns => N*length <= O::MAX and every offset is i*length;
+//   accept: N*length <= O::MAX => no panic.
+fn offset_repeated_case<O: ArrowNativeType, const N: usize, const ASSUME_FITS: bool>(max: u128) {
+    let length: usize = kani::any();
+    let total = length as u128 * N as u128; // N is a constant: linear
+    if ASSUME_FITS {
+        kani::assume(total <= max);
+    }
+    let ob = OffsetBuffer::<O>::from_repeated_length(length, N);
+    assert!(total <= max);
+    assert!(ob.len() == N + 1 && wf_offsets(&ob));
+    let mut i = 0;
+    while i <= N {
+        assert!(ob[i].as_usize() as u128 == length as u128 * i as u128);
+        i += 1;
+    }
+    kani::cover!((N == 0 && length == usize::MAX) || (N > 0 && total > max - N as u128)); // largest accepted length
+    kani::cover!(length == 0);
+}
+macro_rules! offset_repeated_unit {
+    ($name:ident, $o:ty, $n:expr, $fits:expr) => {
+        #[kani::proof]
+        #[kani::unwind(8)]
+        fn $name() {
+            offset_repeated_case::<$o, $n, $fits>(<$o>::MAX as u128)
+        }
+    };
+}
+// @unit name=offset_repeated_rejects_i32_n0 props=C09,C01 kind=bounded bound=n=0 fns=OffsetBuffer<i32>::from_repeated_length mayreject=1 tier=quick mem=2 timeout=200
+offset_repeated_unit!(offset_repeated_rejects_i32_n0, i32, 0, false);
+// @unit name=offset_repeated_rejects_i32_n1 props=C09,C01 kind=bounded bound=n=1 fns=OffsetBuffer<i32>::from_repeated_length mayreject=1 tier=quick mem=2 timeout=200
+offset_repeated_unit!(offset_repeated_rejects_i32_n1, i32, 1, false);
+// @unit name=offset_repeated_rejects_i32_n3 props=C09,C01 kind=bounded bound=n=3 fns=OffsetBuffer<i32>::from_repeated_length mayreject=1 tier=quick mem=2 timeout=200
+offset_repeated_unit!(offset_repeated_rejects_i32_n3, i32, 3, false);
+// @unit name=offset_repeated_accepts_i32_n3 props=C09 kind=bounded bound=n=3 fns=OffsetBuffer<i32>::from_repeated_length tier=quick mem=2 timeout=200
+offset_repeated_unit!(offset_repeated_accepts_i32_n3, i32, 3, true);
+// @unit name=offset_repeated_accepts_i32_n0 props=C09 kind=bounded bound=n=0 fns=OffsetBuffer<i32>::from_repeated_length tier=quick mem=2 timeout=200
+offset_repeated_unit!(offset_repeated_accepts_i32_n0, i32, 0, true);
+// @unit name=offset_repeated_rejects_i64_n2 props=C09,C01 kind=bounded bound=n=2 fns=OffsetBuffer<i64>::from_repeated_length mayreject=1 tier=quick mem=2 timeout=200
+offset_repeated_unit!(offset_repeated_rejects_i64_n2, i64, 2, false);
+// @unit name=offset_repeated_accepts_i64_n2 props=C09 kind=bounded bound=n=2 fns=OffsetBuffer<i64>::from_repeated_length tier=quick mem=2 timeout=200
+offset_repeated_unit!(offset_repeated_accepts_i64_n2, i64, 2, true);
+
+// Contract (C09/C01): `slice(offset, len)` of a well-formed buffer of 4 offsets (3 ranges) with
+// ARBITRARY usize arguments: IF it returns THEN offset + len + 1 <= 4 (no wrap-around), the result
+// has len+1 entries equal to offsets[offset ..= offset+len] (so it is well-formed again) and shares
+// the parent's memory; the parent is unchanged. In-range arguments never panic (second harness).
+fn offset_slice_case<const ASSUME_IN_RANGE: bool>() {
+    let v: [i32; 4] = kani::any();
+    kani::assume(wf_offsets(&v));
+    let ob = OffsetBuffer::new(ScalarBuffer::<i32>::from(v.to_vec()));
+    let (o, l): (usize, usize) = (kani::any(), kani::any());
+    if ASSUME_IN_RANGE {
+        kani::assume(o <= 3 && l <= 3 - o);
+    }
+    let s = ob.slice(o, l);
+    assert!(o as u128 + l as u128 + 1 <= 4);
+    assert!(s.len() == l + 1 && wf_offsets(&s));
+    let i: usize = kani::any();
+    kani::assume(i <= l);
+    assert!(s[i] == v[o + i]);
+    assert!(ob.len() == 4 && ob[o + i] == v[o + i]);
+    assert!(s.ptr_eq(&ob) == (o == 0 && l == 3));
+    kani::cover!(o == 3 && l == 0);
+    kani::cover!(o == 1 && l == 2);
+}
+// @unit name=offset_slice_rejects props=C09,C01 kind=bounded bound=4_offsets fns=OffsetBuffer::slice,ScalarBuffer::slice,ScalarBuffer::new,OffsetBuffer::ptr_eq mayreject=1 tier=quick mem=3 timeout=300
+#[kani::proof]
+#[kani::unwind(8)]
+fn offset_slice_rejects() {
+    offset_slice_case::<false>()
+}
+// @unit name=offset_slice_accepts props=C09 kind=bounded bound=4_offsets fns=OffsetBuffer::slice,ScalarBuffer::slice,ScalarBuffer::new tier=quick mem=3 timeout=300
+#[kani::proof]
+#[kani::unwind(8)]
+fn offset_slice_accepts() {
+    offset_slice_case::<true>()
+}
+
+// Contract (C09/C01/C16): `subtract(rhs)` on a well-formed buffer of 3 offsets, uniquely owned or
+// shared with a clone (symbolic): IF it returns THEN rhs <= first offset and last - rhs does not
+// overflow, every result offset is offsets[i] - rhs exactly, the result is well-formed, and a
+// surviving clone still reads the ORIGINAL offsets (in-place update only when uniquely owned).
+// Accept harness: rhs <= first /\ no overflow => no panic.
+fn offset_subtract_case<const ASSUME_OK: bool, const SHARED: bool>() {
+    let v: [i32; 3] = kani::any();
+    kani::assume(wf_offsets(&v));
+    let rhs: i32 = kani::any();
+    let fits = rhs <= v[0] && (v[2] as i64 - rhs as i64) <= i32::MAX as i64;
+    if ASSUME_OK {
+        kani::assume(fits);
+    }
+    let ob = OffsetBuffer::new(ScalarBuffer::<i32>::from(v.to_vec()));
+    let shared = SHARED;
+    let keep = if shared { Some(ob.clone()) } else { None };
+    let r = ob.subtract(rhs);
+    assert!(fits);
+    assert!(r.len() == 3 && wf_offsets(&r));
+    let i: usize = kani::any();
+    kani::assume(i < 3);
+    assert!(r[i] as i64 == v[i] as i64 - rhs as i64);
+    if let Some(k) = &keep {
+        assert!(k.len() == 3 && k[i] == v[i]);
+    }
+    kani::cover!(rhs > 0);
+    kani::cover!(rhs < 0);
+    kani::cover!(rhs == 0);
+}
+// @unit name=offset_subtract_rejects_unique props=C09,C01,C16 kind=bounded bound=3_offsets fns=OffsetBuffer::subtract,Buffer::into_vec mayreject=1 tier=quick mem=3 timeout=400
+#[kani::proof]
+#[kani::unwind(8)]
+fn offset_subtract_rejects_unique() {
+    offset_subtract_case::<false, false>()
+}
+// @unit name=offset_subtract_rejects_shared props=C09,C01,C16 kind=bounded bound=3_offsets fns=OffsetBuffer::subtract,Buffer::into_vec mayreject=1 tier=quick mem=3 timeout=400
+#[kani::proof]
+#[kani::unwind(8)]
+fn offset_subtract_rejects_shared() {
+    offset_subtract_case::<false, true>()
+}
+// @unit name=offset_subtract_accepts_unique props=C09,C16 kind=bounded bound=3_offsets fns=OffsetBuffer::subtract,Buffer::into_vec tier=quick mem=3 timeout=400
+#[kani::proof]
+#[kani::unwind(8)]
+fn offset_subtract_accepts_unique() {
+    offset_subtract_case::<true, false>()
+}
+// @unit name=offset_subtract_accepts_shared props=C09,C16 kind=bounded bound=3_offsets fns=OffsetBuffer::subtract,Buffer::into_vec tier=quick mem=3 timeout=400
+#[kani::proof]
+#[kani::unwind(8)]
+fn offset_subtract_accepts_shared() {
+    offset_subtract_case::<true, true>()
+}
